@@ -8,13 +8,14 @@ RULE = ('seeded random histories of 1-25 World operations (create with automatic
         'random class DAGs (chains, diamonds) with re-use of live entities and types; after EVERY operation all '
         'six queries are observed for 7 entity ids x every component type.  Non-trivial: >= 2 operations and '
         'at least one non-empty get(); distinct by scenario hash.')
-TAGS = ('get', 'row', 'exists', 'has', 'entities', 'ret', 'res')
+TAGS = ('get', 'getall', 'row', 'exists', 'has', 'entities', 'ret', 'res')
 CLAUSES = {'get', 'get-lists-pair-twice', 'get_components', 'entity_exists', 'has_component', 'get_component',
            'entities', 'create-entity-id', 'outcome', 'shape', 'truncated', 'hang', 'remove-result',
            'remove-matches-subtype', 'return-value'}
 generate, project, oracle, nontrivial, stats = _world.make(
     'C01', TAGS, CLAUSES, [
-        dict(n_proc=(0, 1), handlers=0.2, w=dict(addproc=0.5, rmproc=0, dispatch=0, enable=0.5)),
+        dict(n_proc=(0, 1), handlers=0.2, traits=0.5, decoy=0.4,
+             w=dict(addproc=0.5, rmproc=0, dispatch=0, enable=0.5)),
         # histories in which lifecycle callbacks raise half-way through an operation
         dict(n_comp=(2, 5), n_proc=(0, 1), handlers=0.8, raises=0.8, dup_in_create=0.3,
              w=dict(addproc=0.3, rmproc=0, dispatch=0, enable=0.5, delete=5, process=3, create=5)),
